@@ -96,8 +96,8 @@ def _(A, R):
     x = z3.Const("x!ep", P.sort())
     i, j = z3.Ints("i!ep j!ep")
     return [
-        ("members==all-platforms", z3.ForAll([x], z3.Contains(r.t, z3.Unit(x)) == S.all_platforms(A.setmap).t[x])),
-        ("duplicate-free", z3.ForAll([i, j], z3.Implies(z3.And(0 <= i, i < j, j < z3.Length(r.t)), r.t[i] != r.t[j]))),
+        ("members==all-platforms", z3.ForAll([x], r.has(x) == S.all_platforms(A.setmap).t[x])),
+        ("duplicate-free", z3.ForAll([i, j], z3.Implies(z3.And(0 <= i, i < j, j < r.n), r.arr[i] != r.arr[j]))),
     ]
 
 
